@@ -713,6 +713,9 @@ func rowContexts(p *Prog, fn *ssa.Function, rowOf map[*ssa.Function][]Row, depth
 		if !p.InDaemon(g) {
 			continue
 		}
+		if g.Synthetic != "" && len(staticCallers(p, g)) == 0 {
+			continue // an unused compiler-made wrapper of fn (pointer-receiver form, thunk)
+		}
 		for _, ci := range callsIn(g) {
 			if staticCallee(ci.Common()) != fn {
 				continue
